@@ -517,6 +517,9 @@ def _build(v, w):
                 mod, name = lv["cls"].split(".", 1)
                 inner = w.obj(mod, name)(**fields)
         return inner
+    if tag == "$twice":  # one object met at two positions of the input (shared sub-object)
+        o = _build(a, w)
+        return {"tuple": (o, o), "list": [o, o], "dict": {"first": o, "second": o}}[v.get("as", "tuple")]
     if tag == "$iter":  # one-shot iterator over the built elements
         return iter([_build(x, w) for x in a])
     if tag == "$gen":
